@@ -41,6 +41,7 @@ type wedgeOut struct {
 	AnswerMs    int64    `json:"answer_ms"`
 	Blocked     []string `json:"blocked"` // call sites of goroutines blocked in channel operations when not answered
 	Error       string   `json:"error"`
+	TickConn    string   `json:"tick_conn"` // the simulated socket the tick's query arrived on
 }
 
 func blockedSites() []string {
@@ -174,14 +175,18 @@ func wedgeOne(f *fixture, c wedgeCase) wedgeOut {
 	release := make(chan struct{})
 	inQuery := make(chan struct{}, 1)
 	if c.HoldTick {
-		k.OnRequest = func(req *forwarder.SimRequest) {
+		// the data plane takes its time over the tick's query: its answer is held back while the simulated socket goes on
+		// serving whatever else arrives on it (the event loop has a socket of its own, so nothing else should)
+		k.DeferReply = func(req *forwarder.SimRequest) <-chan struct{} {
 			if req.Cmd == gtp5gnl.CMD_GET_MULTI_REPORTS || req.Cmd == gtp5gnl.CMD_GET_REPORT {
 				select {
 				case inQuery <- struct{}{}:
 				default:
 				}
-				<-release
+				out.TickConn = req.Conn
+				return release
 			}
+			return nil
 		}
 	}
 	g.VerifPerio().VerifTick(60 * time.Second)
